@@ -11,24 +11,24 @@
 From GV Require Import Lib.Bytes Lib.Res Model.Binary Spec.Wire Model.Nocopy.
 Open Scope N_scope.
 
-Definition T_I32 : Z := 8%Z.
-Definition T_STRING : Z := 11%Z.
-Definition T_MAP : Z := 13%Z.
+Definition F_I32 : Z := 8%Z.
+Definition F_STRING : Z := 11%Z.
+Definition F_MAP : Z := 13%Z.
 
 Definition enc_string_field (id : Z) (s : bytes) : bytes :=
-  enc (IFieldBegin T_STRING id) ++ enc (IString s).
+  enc (IFieldBegin F_STRING id) ++ enc (IString s).
 Definition enc_i32_field (id : Z) (v : Z) : bytes :=
-  enc (IFieldBegin T_I32 id) ++ enc (II32 v).
+  enc (IFieldBegin F_I32 id) ++ enc (II32 v).
 Definition enc_entry (kv : bytes * bytes) : bytes :=
   enc (IString (fst kv)) ++ enc (IString (snd kv)).
 Definition enc_entries (l : list (bytes * bytes)) : bytes := concat (map enc_entry l).
 Definition enc_strmap (l : list (bytes * bytes)) : bytes :=
-  enc (IMapBegin T_STRING T_STRING (Z.of_N (len l))) ++ enc_entries l.
+  enc (IMapBegin F_STRING F_STRING (Z.of_N (len l))) ++ enc_entries l.
 (* an optional map: absent when nil *)
 Definition enc_map_field (id : Z) (m : smap) : bytes :=
   match m with
   | None => []
-  | Some l => enc (IFieldBegin T_MAP id) ++ enc_strmap l
+  | Some l => enc (IFieldBegin F_MAP id) ++ enc_strmap l
   end.
 
 (* the stream of a struct whose map is enumerated in the order of its list; nil pointer = STOP *)
